@@ -3,8 +3,11 @@ package main
 import (
 	"go/ast"
 	"go/token"
+	"go/types"
 	"sort"
 	"strings"
+
+	"golang.org/x/tools/go/packages"
 )
 
 // TypeInv is a data-structure invariant sweep: for every method of Type that assigns one of Fields, the
@@ -21,6 +24,7 @@ type TypeInv struct {
 	Inv    []*Clause
 	Skip   map[string]string // method -> reason (listed in the evidence as unverified mutators)
 	Only   map[string]bool   // if non-empty: restrict to these methods
+	Foreign map[string]string // function (not a mutator of the sweep) -> reason it may assign the fields
 	File   string
 	Line   int
 	found  []string
@@ -122,6 +126,7 @@ func (e *Engine) expandTypeInvs() {
 			}
 		}
 		sort.Strings(names)
+		e.encapsulation(ti, p, fieldSet)
 		for _, m := range names {
 			if _, skip := ti.Skip[m]; skip {
 				continue
@@ -197,5 +202,90 @@ func (e *Engine) expandTypeInvs() {
 				}
 			}
 		}
+	}
+}
+
+// encapsulation: the sweep proves the invariant for the methods of Type that assign a field through their receiver.
+// Any other assignment to such a field -- in a function of another type, or to another instance -- bypasses it. Every
+// such site found in the current source becomes a clause of a synthetic lemma `encapsulation_<Type>`: true when the
+// enclosing function is listed under `foreign`/`skip` with a reason, false otherwise. Decided structurally.
+func (e *Engine) encapsulation(ti *TypeInv, p *packages.Package, fieldSet map[string]bool) {
+	type site struct{ fn, field string }
+	seen := map[site]bool{}
+	var sites []site
+	for _, f := range p.Syntax {
+		for _, d := range f.Decls {
+			fd, ok := d.(*ast.FuncDecl)
+			if !ok || fd.Body == nil {
+				continue
+			}
+			fname := fd.Name.Name
+			rn := ""
+			isMethodOfT := false
+			if fd.Recv != nil && len(fd.Recv.List) > 0 {
+				rt := recvTypeName(fd.Recv.List[0].Type)
+				fname = rt + "." + fname
+				if rt == ti.Type {
+					isMethodOfT = true
+					if len(fd.Recv.List[0].Names) > 0 {
+						rn = fd.Recv.List[0].Names[0].Name
+					}
+				}
+			}
+			ast.Inspect(fd.Body, func(n ast.Node) bool {
+				as, ok := n.(*ast.AssignStmt)
+				if !ok {
+					return true
+				}
+				for _, l := range as.Lhs {
+					se, ok := l.(*ast.SelectorExpr)
+					if !ok || !fieldSet[se.Sel.Name] {
+						continue
+					}
+					tv, ok := p.TypesInfo.Types[se.X]
+					if !ok || tv.Type == nil {
+						continue
+					}
+					t := tv.Type
+					if pt, ok := t.Underlying().(*types.Pointer); ok {
+						t = pt.Elem()
+					}
+					if typeName(t) != ti.Type {
+						continue
+					}
+					if id, ok := se.X.(*ast.Ident); ok && isMethodOfT && id.Name == rn {
+						continue // a mutator of the sweep (or a skipped one, listed with its reason)
+					}
+					s := site{fname, se.Sel.Name}
+					if !seen[s] {
+						seen[s] = true
+						sites = append(sites, s)
+					}
+				}
+				return true
+			})
+		}
+	}
+	sort.Slice(sites, func(i, j int) bool {
+		if sites[i].fn != sites[j].fn {
+			return sites[i].fn < sites[j].fn
+		}
+		return sites[i].field < sites[j].field
+	})
+	name := "lemma:encapsulation_" + ti.Type
+	ct := &FuncContract{Name: name, Pkg: ti.Pkg, Loops: map[int]*LoopSpec{}, File: ti.File, Line: ti.Line, Synth: true, Props: ti.Props, Lemma: true}
+	for _, s := range sites {
+		_, okF := ti.Foreign[s.fn]
+		short := s.fn
+		if k := strings.LastIndex(short, "."); k >= 0 {
+			short = short[k+1:]
+		}
+		_, okS := ti.Skip[short]
+		ct.Ensures = append(ct.Ensures, &Clause{Kind: "ensures", Label: "only-the-proved-setters-assign:" + s.fn + "." + s.field,
+			Expr: SBoolL{okF || okS}, Src: "field " + ti.Type + "." + s.field + " is assigned in " + s.fn + ", which is neither a setter proved by the typeinv sweep nor listed `foreign` with a reason",
+			File: ti.File, Line: ti.Line})
+	}
+	if len(ct.Ensures) > 0 {
+		e.db.Funcs[ti.Pkg+"::"+name] = ct
 	}
 }
